@@ -370,7 +370,16 @@ func (a *Amount) UnmarshalText(value []byte) error {
 // UnmarshalJSON ensures amounts will be parsed even if defined as
 // numbers in the source JSON.
 func (a *Amount) UnmarshalJSON(value []byte) error {
-	return a.UnmarshalText(unquote(value))
+	if string(value) == "null" {
+		return nil
+	}
+	// the quoted text "null" is a string, not the null literal
+	amount, err := AmountFromString(string(unquote(value)))
+	if err != nil {
+		return err
+	}
+	*a = amount
+	return nil
 }
 
 func unquote(value []byte) []byte {
